@@ -9,17 +9,29 @@ THEOREMS = [
     ('EAO.Properties.C01', 'EAO.C01.nodal_balance_split', 'the same for the concatenation of interval solutions of a split problem, at original step indices'),
     ('EAO.Properties.C01', 'EAO.C01.nodal_balance_structured', 'a structured asset (inner portfolio assembled with its external nodes skipped, inner nodes renamed and typed internal) is a well-formed asset whose dispatch rows sit at external nodes only, so balance holds at the outer nodes; inner balance holds by the inner nodal rows'),
 ]
-COMPONENTS = ['hypotheses of the assembly theorems (well-formedness of asset problems) evaluated on every captured real asset problem', 'assemble (mapping, nodal rows, nodal list) on captured real asset problems', 'readout.dispatch vs io.extract_output']
+COMPONENTS = ['hypotheses of the assembly theorems (well-formedness of asset problems) evaluated on every captured real asset problem', 'assemble (mapping, nodal rows, nodal list) on captured real asset problems', 'readout.dispatch vs io.extract_output',
+              'the same three on portfolios with assets that list a node more than once (nodal-row coefficients, there sums of several factors of one variable, up to 1e-12)']
 RULE = ('random portfolios (1-3 nodes, 2-8 assets of 12 kinds, windows, coarse frequency, periodicity, wacc, time zones); mono and split; '
         'plus (one more case per 8) portfolios of assets pinned by min_cap == max_cap (fixed-rate / fixed-profile contracts, multi-commodity contracts, '
         'fixed-flow transports) whose pinned values balance or - by a seed-drawn choice per node - do not, alone or next to a flexible market '
         'contract active in part of the horizon, optimised in one go and split into intervals some of which have no free variable; a portfolio '
         'whose pinned values do not balance must not return a solution (counted, nothing to check), every solution that IS returned is checked; '
         'split solutions are re-optimised with whole intervals pinned through fix_time_window (rolling optimisation) and checked again; '
+        'plus (one more case per 8, comp/c01gen.py) portfolios in which assets list the SAME node more than once - Storage(nodes=[n, n]) with separate '
+        'charge / discharge variables (also no_simult_in_out without losses), loop Transport / ExtendedTransport, MultiCommodityContract with several '
+        'factors at one node, CHPAsset / Plant with coinciding power / heat / fuel nodes, StructuredAsset naming an external node twice, such assets as '
+        'base of a ScaledAsset or wrapped in a StructuredAsset - obtained from random portfolios on 2-3 nodes by mapping all node names to one (one-node '
+        'portfolio), identifying two of them, or collapsing the node lists of drawn assets, plus 1-2 added assets with a repeated node; nodes as one shared '
+        'object or one object per mention; one go, relaxed, re-set-up, split, split re-optimised, and through io.optimize (one go / split) and '
+        'to_json -> run_from_json; there the balance oracle of comp/c01gen.py reads the dispatch table once per (asset, node) pair, however often the asset '
+        'names the node, skipping nothing (a missing column counts as zero flow); non-trivial there = additionally an asset that repeats a node reports a non-zero flow at it; '
         'non-trivial = solved scenario with at least one (node, step) where >= 2 assets have non-zero dispatch; distinct by scenario hash')
-ASSUMPTIONS = ['solver returns a point feasible within 1e-6 (checked by the C03 oracle); oracle tolerance 2e-6 * dispatch scale']
+ASSUMPTIONS = ['solver returns a point feasible within 1e-6 (checked by the C03 oracle); oracle tolerance 2e-6 * dispatch scale',
+               'an asset is attached to a node if the node is among its nodes, however often it is listed: its reported dispatch at the node (one column of the table) enters the sum once']
 EXPLANATION = ('theorems about the model of Portfolio.setup_optim_problem / io.extract_output; correspondence on captured asset problems; oracle on the real dispatch output '
-               'of every solution the code returns (one go, relaxed, re-set-up, split, split re-optimised with pinned intervals), also for problems without any free variable')
+               'of every solution the code returns (one go, relaxed, re-set-up, split, split re-optimised with pinned intervals), also for problems without any free variable, '
+               'and for portfolios whose assets list a node more than once (several dispatch rows of one variable at one node and step; the read-out loop passes '
+               'the column of such an asset more than once): per node and step the columns of the (asset, node) pairs attached to the node, each taken once, sum to zero')
 
 
 def scenarios(seed, tier):
@@ -69,6 +81,11 @@ def scenarios(seed, tier):
     # run_from_json, set_param): comp/entry.py
     from ..comp import entry as EN
     yield from EN.stream(seed, n // 12, ('io', 'io_split', 'json'), tmax=10 if tier == 'quick' else 16)
+    # assets that list the SAME node more than once (their column of the dispatch table is passed more than once): comp/c01gen.py
+    from ..comp import c01gen as G
+    rnd4 = random.Random(seed * 7919 + 1 + 900007)
+    for i in range(n // 8):
+        yield 'rep%d' % i, G.gen_case(random.Random(rnd4.getrandbits(48)), tmax=10 if tier == 'quick' else 16)
 
 
 def run_case(scn, drv):
@@ -89,25 +106,44 @@ def run_case(scn, drv):
     if scn['grid'].get('tz'):
         feats.append('tz')
     fixed_stream = scn.get('stream') == 'fixedpf'
+    repeat_stream = scn.get('stream') == 'repeat'
+    balance = pf.orc_nodal_balance
+    assemble = lambda rec_: pf.corr_assemble(rec_, drv, aspects=('mapping', 'nodalrows', 'nodal'))
+    if repeat_stream:
+        # assets listing a node more than once: objects of the stream's own builder, and the balance oracle that counts every
+        # reported column once per (asset, node)
+        from ..comp import c01gen as G
+        feats.extend(G.features(scn))
+        r['observed'] = {'repeat_active_node_steps': 0}
+        assemble = lambda rec_: G.corr_assemble(rec_, drv)     # (sums of factors of one variable at one node: nodal rows up to 1e-12)
+
+        def balance(rec_, tag='mono'):
+            v_, info_ = G.orc_balance(rec_, tag)
+            r['observed']['repeat_active_node_steps'] += info_['repeat_active']
+            if info_['repeat_active']:
+                feats.append('repeat:active:' + tag)
+            if info_['ambiguous']:
+                feats.append('repeat:ambiguous-labels')
+            return v_, info_['node_steps_two_flows'] if info_['repeat_active'] else 0
     rs = None
     try:
-        rec = pf.setup_mono(scn)
+        rec = G.setup_mono(scn) if repeat_stream else pf.setup_mono(scn)
     except Exception as e:
         feats.append('setup-error:' + impl.err_class(e))
         return r
     r['disagreements'] += pf.hyp_wf(rec)
     feats.append('hypotheses-evaluated')
-    r['disagreements'] += pf.corr_assemble(rec, drv, aspects=('mapping', 'nodalrows', 'nodal'))
+    r['disagreements'] += assemble(rec)
     pf.solve_rec(rec)
     if isinstance(rec['res'], str):
         feats.append('unsolved:' + rec['res'])
     else:
         r['disagreements'] += pf.corr_readout(rec, drv, what=('dispatch',))
-        v, nt = pf.orc_nodal_balance(rec)
+        v, nt = balance(rec)
         r['violations'] += v
         r['nontrivial'] = nt > 0
         feats.append('solved')
-        r['observed'] = {'node_steps_with_two_or_more_flows': nt, 'value': float(rec['res'].value)}
+        r['observed'] = dict(r.get('observed') or {}, node_steps_with_two_or_more_flows=nt, value=float(rec['res'].value))
     # "every solution returned": also the one of the relaxed problem (make_soft_problem) of a portfolio with boolean variables
     if pf.is_mip(rec['op']) and not isinstance(rec['res'], str):
         try:
@@ -119,7 +155,7 @@ def run_case(scn, drv):
             if not isinstance(res_s, str):
                 with impl.Quiet():
                     out_s = eao.io.extract_output(rec['portf'], op_s, res_s, rec['prices'])
-                v, _ = pf.orc_nodal_balance(dict(rec, op=op_s, res=res_s, out=out_s), tag='soft')
+                v, _ = balance(dict(rec, op=op_s, res=res_s, out=out_s), tag='soft')
                 r['violations'] += v
                 feats.append('soft-solution')
         except Exception as e:
@@ -142,11 +178,11 @@ def run_case(scn, drv):
             rec2 = dict(rec)
             rec2['op'] = op2
             rec2['captured'] = {k: v[-1] for k, v in cap.caught.items()}
-            r['disagreements'] += pf.corr_assemble(rec2, drv, aspects=('mapping', 'nodalrows', 'nodal'))
+            r['disagreements'] += assemble(rec2)
             pf.solve_rec(rec2)
             r['evaluated'] += 1
             if not isinstance(rec2['res'], str):
-                v, nt = pf.orc_nodal_balance(rec2, tag='re-setup')
+                v, nt = balance(rec2, tag='re-setup')
                 r['violations'] += v
     except Exception as e:
         feats.append('resetup-error:' + impl.err_class(e))
@@ -157,11 +193,11 @@ def run_case(scn, drv):
             k = max(1, T // 3)
             tot = step * k
             interval = ('%dmin' % (tot // 60)) if tot % 3600 else ('%dh' % (tot // 3600))
-            rs = pf.setup_split(scn, scn.get('split_interval') or interval)
+            rs = G.setup_split(scn, interval) if repeat_stream else pf.setup_split(scn, scn.get('split_interval') or interval)
             pf.solve_rec(rs)
             feats.append('split')
             if not isinstance(rs['res'], str):
-                v, nt = pf.orc_nodal_balance(rs, tag='split')
+                v, nt = balance(rs, tag='split')
                 r['violations'] += v
                 r['evaluated'] += 1
                 r['nontrivial'] = r['nontrivial'] or nt > 0
@@ -179,11 +215,17 @@ def run_case(scn, drv):
                     feats.extend(F.refix_features(rf))
                     r['evaluated'] += 1
                     if not isinstance(rf['res'], str):
-                        v, nt = pf.orc_nodal_balance(rf, tag='split-refixed')
+                        v, nt = balance(rf, tag='split-refixed')
                         r['violations'] += v
             except Exception as e:
                 feats.append('refix-error:' + impl.err_class(e))
     if fixed_stream:
         from ..comp import fixedpf as F
         feats.extend(F.features(scn, rec, rs))
+    if repeat_stream and scn.get('doors'):
+        # the same scenario through io.optimize (one go / split) and to_json -> run_from_json
+        v, f, k = G.via_doors(scn, pf.split_interval(scn, rec['tg']))
+        r['violations'] += v
+        feats.extend(f)
+        r['evaluated'] += k
     return r
